@@ -557,7 +557,7 @@ class TsonisFamily(ClimateFamily):
 
 class DerivedClimateFamily(TsonisFamily):
     """Data-derived climate networks: Spearman, MutualInfo, Hilbert
-    (directed / undirected), Havlin."""
+    (directed / undirected), Havlin, PartialCorrelation, Rainfall."""
 
     def __init__(self, kind):
         TsonisFamily.__init__(self)
@@ -567,7 +567,7 @@ class DerivedClimateFamily(TsonisFamily):
         self.queries.pop("winter_only", None)
         del self.mutators["set_winter_only"]
         self.mutators.pop("data_window_then_set_winter_only", None)
-        if kind in ("Spearman", "MutualInfo"):
+        if kind in ("Spearman", "MutualInfo", "PartialCorrelation"):
             self.mutators["set_winter_only"] = self.m_winter
             self.queries["winter_only"] = call("winter_only")
         if kind == "MutualInfo":
@@ -603,7 +603,7 @@ class DerivedClimateFamily(TsonisFamily):
         cls = getattr(climate, self.kind + "ClimateNetwork")
         kw = dict(threshold=m["thr"], non_local=m["nl"],
                   node_weight_type=m["nwt"], silence_level=3)
-        if self.kind in ("Spearman", "MutualInfo"):
+        if self.kind in ("Spearman", "MutualInfo", "PartialCorrelation"):
             kw["winter_only"] = m["winter"]
         if self.kind == "Hilbert":
             kw["directed"] = m["directed"]
@@ -1069,6 +1069,10 @@ def fam(name):
                 lambda: DerivedClimateFamily("Hilbert"),
             "HavlinClimateNetwork":
                 lambda: DerivedClimateFamily("Havlin"),
+            "PartialCorrelationClimateNetwork":
+                lambda: DerivedClimateFamily("PartialCorrelation"),
+            "RainfallClimateNetwork":
+                lambda: DerivedClimateFamily("Rainfall"),
         }[name]()
     return FAMILIES[name]
 
@@ -1311,7 +1315,7 @@ def data_cases(draw):
 @st.composite
 def derived_cases(draw):
     kind = draw(st.sampled_from(["Spearman", "MutualInfo", "Hilbert",
-                                 "Havlin"]))
+                                 "Havlin", "PartialCorrelation", "Rainfall"]))
     fam_name = kind + "ClimateNetwork"
     n = draw(st.integers(3, 5))
     T = 24
@@ -1326,7 +1330,7 @@ def derived_cases(draw):
     margs = {"set_threshold": thr,
              "set_link_density": st.integers(1, 9).map(lambda k: k / 10.0),
              "set_non_local": st.booleans()}
-    if kind in ("Spearman", "MutualInfo"):
+    if kind in ("Spearman", "MutualInfo", "PartialCorrelation"):
         margs["set_winter_only"] = st.booleans()
     if kind == "MutualInfo" and draw(st.integers(0, 7)) == 0:
         margs["set_winter_only_dump_default"] = st.booleans()
